@@ -13,7 +13,7 @@ Case line:  b <link> <vlan> <net> <transport> <payload>
              i4|i6/ u.<type>.<code>.<bytes5to8> | q.<id>.<seq> | p.<id>.<seq> | Q.. | P.. (through icmpvN(type)) | x.<canonical header bytes>
   payload    - | <hex> | g<len>.<seed> | c<len>.<byte>
 The implementation prints  "<verdict> size=<size()> <bytes through write()> ; vec=.. slice=.. short=.. parse=.. crate=.."
-the runner                 "<verdict> size=<final_size> <bytes> | wire=<reference decoder> exp=<expected view|->".
+the runner                 "<verdict> size=<final_size> <bytes> | wire=<reference decoder> exp=<expected_x view (C10_parse_back) | - when the payload is not admitted>".
 """
 import struct
 
@@ -36,7 +36,7 @@ ASSUMPTIONS = [
     "little-endian host in the correspondence run (the theorems quantify over both endiannesses)",
     "64-bit usize: the sums of header lengths and payload.len() cannot wrap (payload.len() < 2^63)",
     "the model covers ICMP kinds Unknown/EchoRequest/EchoReply; the other typed ICMPv4/ICMPv6 kinds are checked by the oracle only",
-    "parse-back / consistency THEOREMS cover configurations without extension headers; configurations with IPv4 AH / IPv6 extension headers are covered by C10_size, C10_errors and by correspondence + oracle",
+    "C10_parse_back (wire reference decoder = expected_x) holds for every modelled configuration whose payload the message type admits (payload_admitted: not write(ip_number) with 1/6/17/58/51 or, over IPv6, an extension header number; not an ICMPv4 timestamp type with a payload other than 12 bytes); the chain part of C10_next_protocol_fields needs the same condition on write(ip_number) over IPv6",
     "values satisfy the type invariants of the crate's structs (array sizes, bounded newtypes, option/ICV buffer lengths): cfg_wf in the theorems, enforced by construction in the harness",
 ]
 PROJECTION = "verdict (ok / error kind with its numbers), size(), every byte that reached the sink"
@@ -693,6 +693,9 @@ def compare(ctx, cases, impl, model_lines):
             bump("tr:" + t.split("/")[0] + ("." + t.split("/")[1][0] if t[0] == "i" else ""))
             bump("plen:" + ("0" if plen == 0 else "1-9" if plen < 10 else "10-2000" if plen <= 2000 else ">60000" if plen > 60000 else "2001-60000"))
             bump("expect:" + st + (":" + want.split(":")[0] if st == "err" else ""))
+            if st == "ok" and spec:
+                hasx = (n[:2] == "6h" and n.split("/")[4] != "-;-;-;-;-;-") or (n[:2] == "4h" and n.split("/")[5] != "-")
+                bump("parse_back_theorem:" + ("applies" if spec.get("exp", "-") != "-" else "payload-not-admitted") + ("+x" if hasx else ""))
             if (st == "ok" and _layers(l, v, n, t) >= 3 and plen > 0) or st == "err":
                 nontriv += 1
         for prof, lines in impl.items():
@@ -761,4 +764,4 @@ def compare(ctx, cases, impl, model_lines):
             "extra": {"model_covered_cases": modelled, "correspondence_only_cases": unmodelled,
                       "model_covered": "all link/VLAN/IPv4(+options,+AH)/IPv6(+all extension shapes)/ARP paths, UDP, TCP, ICMP Unknown/EchoRequest/EchoReply, raw payload; errors and bytes left in the sink on error",
                       "oracle_only": "typed ICMPv4/ICMPv6 kinds other than echo (tag x): RFC reference encoding, checksums, crate re-parse, three sinks",
-                      "theorem_family": "C10_size/C10_errors/C10_never_panic: every modelled configuration; C10_parse_back/C10_consistent: configurations without extension headers"}}
+                      "theorem_family": "C10_size/C10_errors/C10_never_panic/C10_consistent_*/C10_checksums_verify/C10_next_protocol_fields: every modelled configuration; C10_parse_back: every modelled configuration with an admitted payload (extension headers included; exp= column = expected_x)"}}
